@@ -58,6 +58,26 @@ Theorem C17g_link_from_str :
 Proof. exact link_from_str. Qed.
 Print Assumptions C17g_link_from_str.
 
+Theorem C17g_link_good_char :
+  forall x : N, M_fn_good_char x = Some (StrMisc.good_char x).
+Proof. exact link_good_char. Qed.
+Print Assumptions C17g_link_good_char.
+
+Theorem C17g_link_good_string :
+  forall a : list N, M_fn_good_string a = Some (StrMisc.good_string a).
+Proof. exact link_good_string. Qed.
+Print Assumptions C17g_link_good_string.
+
+Theorem C17g_link_is_good :
+  forall s : SmtString, M_SmtString_is_good s = Some (StrMisc.smt_is_good (w s)).
+Proof. exact link_is_good. Qed.
+Print Assumptions C17g_link_is_good.
+
+Theorem C17g_link_char :
+  forall (s : SmtString) (i : nat), M_SmtString_char s i = StrMisc.smt_char (w s) i.
+Proof. exact link_char. Qed.
+Print Assumptions C17g_link_char.
+
 (* ---- every constructor hands out SMT characters only ---- *)
 
 Theorem C17g_from_slice_good :
@@ -90,3 +110,26 @@ Theorem C17g_from_char_good :
        exists s : SmtString, M_SmtString_from_char x = Some s /\ w s = [clampc x] /\ goodw (w s).
 Proof. exact g_from_char_good. Qed.
 Print Assumptions C17g_from_char_good.
+
+Theorem C17g_is_good_iff :
+  forall s : SmtString,
+       M_SmtString_is_good s = Some true <->
+       goodw (w s) /\ (Z.of_nat (length (w s)) <= StrSearch.MAX_LENGTH)%Z.
+Proof. exact g_is_good_iff. Qed.
+Print Assumptions C17g_is_good_iff.
+
+Theorem C17g_is_good_total :
+  forall s : SmtString, exists b : bool, M_SmtString_is_good s = Some b.
+Proof. exact g_is_good_total. Qed.
+Print Assumptions C17g_is_good_total.
+
+Theorem C17g_made_is_good :
+  forall (a : list N) (s : SmtString),
+       M_SmtString_make a = Some s -> goodw a -> M_SmtString_is_good s = Some true.
+Proof. exact g_made_is_good. Qed.
+Print Assumptions C17g_made_is_good.
+
+Theorem C17g_char :
+  forall (s : SmtString) (i : nat), M_SmtString_char s i = nth_error (w s) i.
+Proof. exact g_char. Qed.
+Print Assumptions C17g_char.
